@@ -87,14 +87,27 @@ func (s *Scanner) Scan(ctx context.Context, r *scan.Request) (result scan.Result
 	// TODO DNS names
 	host := fmt.Sprintf("tcp://%s:%d", r.DstIP.String(), r.DstPort)
 
+	// moby configures the transport it is given from the environment (HTTP_PROXY, HTTPS_PROXY, NO_PROXY,
+	// ALL_PROXY): every probe gets a transport of its own, and the proxy settings are taken out again,
+	// so that the connection goes to the target itself
+	client := *s.client
+	tr, _ := s.client.Transport.(*http.Transport)
+	if tr != nil {
+		tr = tr.Clone()
+		client.Transport = tr
+	}
 	var docker *moby.Client
 	if docker, err = moby.NewClientWithOpts(
 		moby.WithAPIVersionNegotiation(),
-		moby.WithHTTPClient(s.client),
+		moby.WithHTTPClient(&client),
 		moby.WithScheme(s.proto),
 		moby.WithHost(host),
 	); err != nil {
 		return
+	}
+	if tr != nil {
+		tr.Proxy = nil
+		tr.Dial = nil //nolint:staticcheck // set by moby from ALL_PROXY
 	}
 
 	var info types.Info
